@@ -1,8 +1,9 @@
 (* What the model guarantees about the judged clauses (the model satisfies C16_ok's And/Or clause and
    its proto.Equal clause for every input), and the Collection.Pull drift witness. *)
 From Coq Require Import QArith.
-From SC Require Import Base.Prelude Cmp.Cmp Cmp.Logic Cmp.Tolerance Cmp.Spec Cmp.LogicProofs Cmp.CmpProofs
-  Cmp.C16Judge Resource.Impl Resource.Pull.
+From SC Require Import Base.Prelude Cmp.Cmp Cmp.Logic Cmp.Tolerance Cmp.FloatB64 Cmp.GoTime Cmp.Spec Cmp.LogicProofs
+  Cmp.ToleranceProofs Cmp.FloatB64Proofs Cmp.GoTimeProofs Cmp.CmpProofs Cmp.SpecSymProofs Cmp.CollEquiv Cmp.C16Judge Cmp.TreeProofs
+  Resource.Impl Resource.Pull.
 Open Scope Z_scope.
 
 (* And / Or of comparers: the four verdicts of the combination are the fold of the components' *)
@@ -62,3 +63,310 @@ Lemma drift_witness :
   c_forward_gen (fun (_ : unit) (m : Z) => m) (Some within1) false false plain_ropts drift_events = [] /\
   within1 (Some 0) (Some (final 0 drift_events)) = false.
 Proof. repeat split; vm_compute; reflexivity. Qed.
+
+
+(* ================= symmetry and reflexivity of cmp.Equal(tolerances...) on WHOLE messages ================= *)
+Definition vsym (m : vcmp) : Prop := forall a b, m a b = m b a.
+Definition vrefl (m : vcmp) : Prop := forall a, says m a a = true \/ answers m a a = false.
+Definition vsing (m : vcmp) : Prop := forall a b, is_singular a && is_singular b = false -> answers m a b = false.
+
+Lemma model_v_sym v : is_durp v = false -> vsym (model_v v).
+Proof.
+  destruct v as [fr mg|d|d|p]; intros H; try discriminate H; intros a b; cbn [model_v].
+  - apply float_b64_symmetric.
+  - apply time_fixed_symmetric.
+  - apply duration_symmetric.
+Qed.
+
+Lemma model_v_refl v : vcfg_guard v = true -> is_durp v = false -> vrefl (model_v v).
+Proof.
+  destruct v as [fr mg|d|d|p]; intros G H; try discriminate H; intros a; cbn [model_v]; cbn [vcfg_guard] in G.
+  - apply float_b64_reflexive.
+  - apply andb_true_iff in G. destruct G as [G1 G2]. apply Z.leb_le in G1. apply Z.leb_le in G2.
+    apply time_fixed_reflexive. lia.
+  - apply andb_true_iff in G. destruct G as [G1 _]. apply Z.leb_le in G1. apply duration_reflexive. exact G1.
+Qed.
+
+Lemma model_v_sing v : vsing (model_v v).
+Proof.
+  intros a b H. destruct (answers (model_v v) a b) eqn:A; [|reflexivity]. exfalso.
+  assert (S : is_singular a = true /\ is_singular b = true).
+  { destruct v as [fr mg|d|d|p]; cbn [model_v] in A.
+    - destruct (float_b64_only_own_kind _ _ _ _ A) as [(x & y & -> & ->)|(x & y & -> & ->)]; split; reflexivity.
+    - destruct (time_fixed_only_own_kind _ _ _ A) as (tx & vx & fx & ux & ty & vy & fy & uy & -> & -> & _). split; reflexivity.
+    - destruct (duration_only_own_kind _ _ _ A) as (tx & vx & fx & ux & ty & vy & fy & uy & -> & -> & _). split; reflexivity.
+    - destruct (durp_only_own_kind _ _ _ A) as (tx & vx & fx & ux & ty & vy & fy & uy & -> & -> & _). split; reflexivity. }
+  destruct S as [S1 S2]. rewrite S1, S2 in H. discriminate H.
+Qed.
+
+Section Combined.
+  Variable ms : list vcmp.
+
+  Lemma forallb_pointwise {A} (f g : A -> bool) (l : list A) :
+    (forall x, In x l -> f x = g x) -> forallb f l = forallb g l.
+  Proof. apply forallb_ext_in. Qed.
+  Lemma existsb_pointwise {A} (f g : A -> bool) (l : list A) :
+    (forall x, In x l -> f x = g x) -> existsb f l = existsb g l.
+  Proof.
+    induction l as [|a r IH]; intros H; [reflexivity|]. cbn [existsb].
+    rewrite (H a (or_introl eq_refl)), IH; [reflexivity|]. intros x Hx. apply H. right. exact Hx.
+  Qed.
+
+  Lemma and_leaf_sym : (forall m, In m ms -> vsym m) -> forall a b, leaf_of (value_and ms) a b = leaf_of (value_and ms) b a.
+  Proof.
+    intros H a b. rewrite !leaf_of_value_and.
+    rewrite (existsb_pointwise (fun e => answers e a b) (fun e => answers e b a))
+      by (intros m Hm; unfold answers; rewrite (H m Hm); reflexivity).
+    rewrite (forallb_pointwise (fun e => negb (answers e a b) || says e a b) (fun e => negb (answers e b a) || says e b a))
+      by (intros m Hm; unfold answers, says; rewrite (H m Hm); reflexivity).
+    reflexivity.
+  Qed.
+  Lemma or_leaf_sym : (forall m, In m ms -> vsym m) -> forall a b, leaf_of (value_or ms) a b = leaf_of (value_or ms) b a.
+  Proof.
+    intros H a b. rewrite !leaf_of_value_or.
+    rewrite (existsb_pointwise (fun e => answers e a b) (fun e => answers e b a))
+      by (intros m Hm; unfold answers; rewrite (H m Hm); reflexivity).
+    rewrite (existsb_pointwise (fun e => answers e a b && says e a b) (fun e => answers e b a && says e b a))
+      by (intros m Hm; unfold answers, says; rewrite (H m Hm); reflexivity).
+    reflexivity.
+  Qed.
+
+  Lemma none_answer_sing : (forall m, In m ms -> vsing m) -> forall a b,
+    is_singular a && is_singular b = false -> existsb (fun e => answers e a b) ms = false.
+  Proof.
+    intros H a b S. destruct (existsb (fun e => answers e a b) ms) eqn:E; [|reflexivity].
+    apply existsb_exists in E. destruct E as (m & Hm & A). rewrite (H m Hm a b S) in A. discriminate A.
+  Qed.
+  Lemma and_leaf_sing : (forall m, In m ms -> vsing m) -> forall a b,
+    is_singular a && is_singular b = false -> leaf_of (value_and ms) a b = None.
+  Proof. intros H a b S. rewrite leaf_of_value_and, (none_answer_sing H a b S). reflexivity. Qed.
+  Lemma or_leaf_sing : (forall m, In m ms -> vsing m) -> forall a b,
+    is_singular a && is_singular b = false -> leaf_of (value_or ms) a b = None.
+  Proof. intros H a b S. rewrite leaf_of_value_or, (none_answer_sing H a b S). reflexivity. Qed.
+
+  Lemma and_leaf_refl : (forall m, In m ms -> vrefl m) -> forall a,
+    leaf_of (value_and ms) a a = Some true \/ leaf_of (value_and ms) a a = None.
+  Proof.
+    intros H a. rewrite leaf_of_value_and.
+    destruct (existsb (fun e => answers e a a) ms); [left|right; reflexivity]. f_equal.
+    apply forallb_forall. intros m Hm. destruct (H m Hm a) as [S|A]; [rewrite S; apply orb_true_r|rewrite A; reflexivity].
+  Qed.
+  Lemma or_leaf_refl : (forall m, In m ms -> vrefl m) -> forall a,
+    leaf_of (value_or ms) a a = Some true \/ leaf_of (value_or ms) a a = None.
+  Proof.
+    intros H a. rewrite leaf_of_value_or.
+    destruct (existsb (fun e => answers e a a) ms) eqn:E; [left|right; reflexivity]. f_equal.
+    apply existsb_exists in E. destruct E as (m & Hm & A). apply existsb_exists. exists m. split; [exact Hm|].
+    rewrite A. destruct (H m Hm a) as [S|A']; [exact S|congruence].
+  Qed.
+End Combined.
+
+Lemma in_model_vs vs m (P : vcmp -> Prop) :
+  (forall v, In v vs -> P (model_v v)) -> In m (map model_v vs) -> P m.
+Proof. intros H Hm. apply in_map_iff in Hm. destruct Hm as (v & <- & Hv). apply H. exact Hv. Qed.
+
+Lemma not_durp_in vs v : existsb is_durp vs = false -> In v vs -> is_durp v = false.
+Proof.
+  intros H Hi. destruct (is_durp v) eqn:E; [|reflexivity].
+  assert (X : existsb is_durp vs = true) by (apply existsb_exists; exists v; auto). congruence.
+Qed.
+
+(* cmp.Equal(FloatValueApprox.., TimeValueWithin.., DurationValueWithin..) and Equal(ValueOr(...)) are
+   symmetric on ALL pairs of (possibly nil) messages: no guard on the values, NaN, infinities,
+   saturating Durations, typed nil and different types included *)
+Theorem model_symmetric : forall e x y, has_durp e = false -> opt_wf x = true -> opt_wf y = true ->
+  model_e e x y = model_e e y x.
+Proof.
+  intros e x y Nd Wx Wy. unfold has_durp in Nd.
+  destruct e as [vs|vs]; cbn [model_e cfg_vs] in *; rewrite !cmp_equal_is_spec by assumption; apply spec_top_sym; try assumption.
+  - apply and_leaf_sym. intros m Hm. apply (in_model_vs vs m vsym); [|exact Hm].
+    intros v Hv. apply model_v_sym. apply (not_durp_in vs); assumption.
+  - apply and_leaf_sing. intros m Hm. apply (in_model_vs vs m vsing); [|exact Hm]. intros v _. apply model_v_sing.
+  - intros a b. rewrite !leaf_of_value_and_single. apply or_leaf_sym.
+    intros m Hm. apply (in_model_vs vs m vsym); [|exact Hm].
+    intros v Hv. apply model_v_sym. apply (not_durp_in vs); assumption.
+  - intros a b S. rewrite leaf_of_value_and_single. apply or_leaf_sing; [|exact S].
+    intros m Hm. apply (in_model_vs vs m vsing); [|exact Hm]. intros v _. apply model_v_sing.
+Qed.
+
+(* ... and reflexive on every message, for non-negative tolerances *)
+Theorem model_reflexive : forall e x, ecfg_guard e = true -> has_durp e = false -> opt_wf x = true ->
+  model_e e x x = true.
+Proof.
+  intros e x Ge Nd Wx. unfold has_durp, ecfg_guard in *.
+  assert (R : forall vs, forallb vcfg_guard vs = true -> existsb is_durp vs = false ->
+              forall m, In m (map model_v vs) -> vrefl m).
+  { intros vs G N m Hm. apply (in_model_vs vs m vrefl); [|exact Hm]. intros v Hv. apply model_v_refl.
+    - rewrite forallb_forall in G. apply (G _ Hv).
+    - apply (not_durp_in vs); assumption. }
+  destruct e as [vs|vs]; cbn [model_e cfg_vs] in *; rewrite cmp_equal_is_spec by assumption; apply spec_top_refl; try assumption.
+  - apply and_leaf_refl. apply R; assumption.
+  - intros a. rewrite leaf_of_value_and_single. apply or_leaf_refl. apply R; assumption.
+Qed.
+
+(* ================= the judge is sound with respect to the model ================= *)
+Lemma b4_eqb_eq a b : b4_eqb a b = true -> a = b.
+Proof.
+  destruct a as [[[a1 a2] a3] a4], b as [[[b1 b2] b3] b4]. cbn [b4_eqb]. intros H.
+  repeat (apply andb_true_iff in H; destruct H as [H ?]).
+  repeat match goal with X : Bool.eqb _ _ = true |- _ => apply Bool.eqb_prop in X end. congruence.
+Qed.
+Lemma list_b4_eq a b : list_eqb b4_eqb a b = true -> a = b.
+Proof.
+  revert b. induction a as [|x r IH]; intros [|y s] H; try discriminate H; [reflexivity|].
+  cbn [list_eqb] in H. apply andb_true_iff in H. destruct H as [H1 H2].
+  rewrite (b4_eqb_eq _ _ H1), (IH _ H2). reflexivity.
+Qed.
+
+Lemma opt_guard_wf x : opt_guard x = true -> opt_wf x = true.
+Proof. destruct x as [a|]; [|reflexivity]. cbn. intros H. apply andb_true_iff in H. tauto. Qed.
+
+Lemma class_none_tree_ok e x y :
+  opt_guard x = true -> opt_guard y = true -> obs_class x y (OEq e (true, true, true, true)) = None ->
+  has_durp e = false /\ tree_ok e x = true /\ tree_ok e y = true.
+Proof.
+  intros Gx Gy. cbn [obs_class]. destruct (has_durp e); [discriminate|]. intros H. split; [reflexivity|].
+  unfold tree_ok, cfg_nd. rewrite Gx, Gy. cbn [andb].
+  destruct (existsb is_dur (cfg_vs e)); [|split; reflexivity]. cbn [andb negb orb] in *.
+  destruct (opt_sat x), (opt_sat y); try discriminate H. split; reflexivity.
+Qed.
+
+Lemma default_ideal_is_proto x y : opt_wf x = true -> opt_wf y = true ->
+  spec_top ignored no_leaf x y = proto_equal (strip_opt x) (strip_opt y).
+Proof.
+  intros Wx Wy. rewrite <- (default_is_spec x y Wx Wy). apply default_is_proto_equal; assumption.
+Qed.
+
+(* one observation of a pair *)
+Theorem obs_sound : forall x y ps o,
+  opt_guard x = true -> opt_guard y = true -> obs_guard o = true ->
+  ps = (proto_equal (strip_opt x) (strip_opt y), proto_equal (strip_opt y) (strip_opt x)) ->
+  agrees_obs x y o = true ->
+  match o with OEq e _ => obs_class x y (OEq e (true, true, true, true)) = None | OComb _ _ _ _ => True end ->
+  ok_obs x y ps o = true.
+Proof.
+  intros x y ps o Gx Gy Go Hps A C.
+  pose proof (opt_guard_wf _ Gx) as Wx. pose proof (opt_guard_wf _ Gy) as Wy.
+  destruct o as [e v|is_or es comps v].
+  - cbn [agrees_obs] in A. apply b4_eqb_eq in A. subst v. cbn [obs_guard] in Go.
+    destruct (class_none_tree_ok e x y Gx Gy C) as (Nd & Tx & Ty).
+    cbn [ok_obs]. unfold ok_eq, four. rewrite Nd.
+    rewrite (model_reflexive e x Go Nd Wx), (model_reflexive e y Go Nd Wy).
+    pose proof (model_symmetric e y x Nd Wy Wx) as Sy.
+    rewrite (model_is_ideal e y x Go Nd Ty Tx) in Sy |- *. rewrite (model_is_ideal e x y Go Nd Tx Ty) in Sy |- *.
+    rewrite Sy, !Bool.eqb_reflx. cbn [andb].
+    destruct (cfg_vs e) as [|v0 r] eqn:V; [|reflexivity].
+    subst ps. cbn [fst snd].
+    assert (I : forall a b, opt_wf a = true -> opt_wf b = true -> ideal_e e a b = proto_equal (strip_opt a) (strip_opt b)).
+    { intros a b Wa Wb. destruct e as [vs|vs]; cbn [cfg_vs] in V; subst vs; cbn [ideal_e map];
+        apply default_ideal_is_proto; assumption. }
+    rewrite (I y x Wy Wx), (I x y Wx Wy) in Sy. rewrite (I x y Wx Wy), Sy, !Bool.eqb_reflx. reflexivity.
+  - cbn [agrees_obs] in A. apply andb_true_iff in A. destruct A as [A1 A2].
+    apply list_b4_eq in A1. apply b4_eqb_eq in A2. subst comps v.
+    pose proof (comb_model_ok is_or es x y) as K. cbn [ok_obs] in K |- *. exact K.
+Qed.
+
+(* ---- streams of a Value ---- *)
+Lemma stream_model_is_ideal : forall e ws last,
+  ecfg_guard e = true -> has_durp e = false -> tree_ok e last = true ->
+  forallb (fun w => tree_ok e (Some w)) ws = true ->
+  map (@vc_value cval)
+      (v_forward (fun (_ : unit) (m : cval) => m) (Some (model_e e)) (mkR (rmask := unit) None false None) last
+                 (map (fun w => mkVE w 0) ws)) = ideal_stream e last ws.
+Proof.
+  intros e ws. induction ws as [|w r IH]; intros last Ge Nd Tl Tw; [reflexivity|].
+  cbn [forallb] in Tw. apply andb_true_iff in Tw. destruct Tw as [T1 T2].
+  cbn [map v_forward ideal_stream ve_value ve_time]. unfold filt. cbn [ro_mask].
+  rewrite (model_is_ideal e last (Some w) Ge Nd Tl T1).
+  destruct (ideal_e e last (Some w)).
+  - apply IH; assumption.
+  - cbn [map vc_value]. f_equal. apply IH; assumption.
+Qed.
+
+(* ---- the one-item Collection: the repaired loop ---- *)
+Lemma coll_stream_model_is_ideal : forall e ws prev held,
+  ecfg_guard e = true -> has_durp e = false -> tree_ok e (Some held) = true ->
+  forallb (fun w => tree_ok e (Some w)) ws = true ->
+  flat_map (fun c : cchange cval => match cc_new c with Some v => [v] | None => [] end)
+           (c_forward_held id_filter (Some (model_e e)) plain_ro [("a"%string, Some held)] (chain_events prev ws))
+  = ideal_stream e (Some held) ws.
+Proof.
+  intros e ws. induction ws as [|w r IH]; intros prev held Ge Nd Tl Tw; [reflexivity|].
+  cbn [forallb] in Tw. apply andb_true_iff in Tw. destruct Tw as [T1 T2].
+  cbn [chain_events c_forward_held]. unfold plain_ro at 1. cbn [ro_include include_gen].
+  unfold held_step, cc_filter, of_event, filt. cbn [cc_id cc_old cc_new cc_time cc_kind cc_seed cc_last_seed
+    ce_id ce_old ce_new ce_time ce_kind ro_mask plain_ro option_map hget].
+  rewrite String.eqb_refl.
+  rewrite (model_is_ideal e (Some held) (Some w) Ge Nd Tl T1). cbn [ideal_stream].
+  destruct (ideal_e e (Some held) (Some w)).
+  - cbn [hset]. rewrite String.eqb_refl. apply IH; assumption.
+  - cbn [hset flat_map cc_new app]. rewrite String.eqb_refl. f_equal. apply IH; assumption.
+Qed.
+
+(* what must hold beyond the guard: no known-finding class applies, and the case is of a kind whose
+   judgement is proved (KColl is judged by the same predicate but its soundness is not proved here;
+   the theorems behind it are those of Cmp/CollEquivProofs.v) *)
+Definition stream_scope (e : ecfg) (seed : option cval) (writes : list cval) : bool :=
+  negb (has_durp e) && (cfg_nd (cfg_vs e) || (negb (opt_sat seed) && forallb (fun w => negb (has_sat_duration w)) writes)).
+Definition in_scope (c : c16case) : bool :=
+  match unwrap c with
+  | KPair x y _ _ os =>
+      forallb (fun o => match o with
+                        | OEq e _ => match obs_class x y (OEq e (true, true, true, true)) with None => true | Some _ => false end
+                        | OComb _ _ _ _ => true
+                        end) os
+  | KStream e seed writes _ => stream_scope e seed writes
+  | KCollStream e seed writes _ => stream_scope e (Some seed) writes
+  | _ => false
+  end.
+
+Lemma stream_scope_tree_ok e seed writes :
+  opt_guard seed = true -> forallb (fun w => opt_guard (Some w)) writes = true -> stream_scope e seed writes = true ->
+  has_durp e = false /\ tree_ok e seed = true /\ forallb (fun w => tree_ok e (Some w)) writes = true.
+Proof.
+  intros Gs Gw S. unfold stream_scope in S. apply andb_true_iff in S. destruct S as [S1 S2].
+  apply negb_true_iff in S1. split; [exact S1|]. unfold tree_ok. rewrite Gs. cbn [andb].
+  destruct (cfg_nd (cfg_vs e)) eqn:N; cbn [orb] in *.
+  - split; [reflexivity|]. apply forallb_forall. intros w Hw. rewrite forallb_forall in Gw. rewrite (Gw _ Hw). reflexivity.
+  - apply andb_true_iff in S2. destruct S2 as [S2 S3]. split; [exact S2|].
+    apply forallb_forall. intros w Hw. rewrite forallb_forall in Gw, S3. cbn [opt_sat]. rewrite (Gw _ Hw), (S3 _ Hw). reflexivity.
+Qed.
+
+Theorem judge_sound : forall c,
+  agrees c = true -> C16_guard c = true -> in_scope c = true -> C16_ok c = true.
+Proof.
+  intros c A G S. unfold agrees in A. apply andb_true_iff in A. destruct A as [_ A].
+  unfold C16_guard in G. unfold C16_ok. unfold in_scope in S.
+  destruct (unwrap c) as [x y pr ps os|e seed writes emitted|e seed writes emitted| | | |]; try discriminate S.
+  - cbn [agrees_core guard_core ok_core] in *.
+    apply andb_true_iff in A. destruct A as [A A3]. apply andb_true_iff in A. destruct A as [_ A2].
+    apply andb_true_iff in G. destruct G as [G G3]. apply andb_true_iff in G. destruct G as [Gx Gy].
+    assert (Hps : ps = (proto_equal (strip_opt x) (strip_opt y), proto_equal (strip_opt y) (strip_opt x))).
+    { unfold bb_eqb in A2. apply andb_true_iff in A2. destruct A2 as [P1 P2].
+      apply Bool.eqb_prop in P1. apply Bool.eqb_prop in P2. destruct ps as [p1 p2]. cbn [fst snd] in *. congruence. }
+    apply forallb_forall. intros o Ho. rewrite forallb_forall in A3, G3, S.
+    apply (obs_sound x y ps o Gx Gy (G3 _ Ho) Hps (A3 _ Ho)).
+    specialize (S _ Ho). destruct o as [e v|]; [|exact I].
+    destruct (obs_class x y (OEq e (true, true, true, true))); [discriminate S|reflexivity].
+  - cbn [agrees_core guard_core ok_core] in *.
+    apply andb_true_iff in G. destruct G as [G Ge]. apply andb_true_iff in G. destruct G as [Gs Gw].
+    destruct (stream_scope_tree_ok e seed writes Gs Gw S) as (Nd & Ts & Tw).
+    assert (E : pull_model e seed writes =
+                match seed with Some s => [s] | None => [] end ++ ideal_stream e seed writes).
+    { unfold pull_model, pull_value, pull_value_gen. cbn [ro_updates_only v_val]. rewrite map_app. f_equal.
+      - destruct seed; reflexivity.
+      - assert (L : option_map (filt (fun (_ : unit) (m : cval) => m) (mkR (rmask := unit) None false None)) seed = seed)
+          by (destruct seed; reflexivity).
+        rewrite L. apply stream_model_is_ideal; assumption. }
+    rewrite <- E. exact A.
+  - cbn [agrees_core guard_core ok_core] in *.
+    apply andb_true_iff in G. destruct G as [G Ge]. apply andb_true_iff in G. destruct G as [Gs Gw].
+    destruct (stream_scope_tree_ok e (Some seed) writes Gs Gw S) as (Nd & Ts & Tw).
+    assert (E : coll_model e seed writes = seed :: ideal_stream e (Some seed) writes).
+    { unfold coll_model. f_equal. apply coll_stream_model_is_ideal; assumption. }
+    rewrite <- E. exact A.
+Qed.
+
+Print Assumptions model_symmetric.
+Print Assumptions model_reflexive.
+Print Assumptions judge_sound.
